@@ -20,7 +20,7 @@ fi
 
 # which binary variant does this check need
 case "$ID" in
-  C13|C20) VARIANT=add ;;
+  C13|C19|C20) VARIANT=add ;;
   C11|C12|C14) VARIANT=full ;;
   *) VARIANT=plain ;;
 esac
